@@ -125,7 +125,9 @@ def run(rep, tier):
         t0 = time.time()
     rep.rule = ("TLC explores the rearrangement machine (Comm, Assoc, Distrib, Factor, AddZero, MulOne, FoldNum/SplitNum, SucPlus, SubNeg, "
                 "NegMul, NegNeg, NegAdd, PowFold/Unfold, Dup/Dedup, DeMorgan, DNeg at every position) from every +,* tree with <= 3 leaves over "
-                "{x, y, 0, 1, 2} at nat and at the ring types, hand-picked seeds with - uminus ^ Suc and truncated subtraction as an opaque "
+                "{x, y, 0, 1, 2} at nat and at the ring types, hand-picked seeds with - uminus ^ Suc, CANCELLING members (a monomial added and "
+                "subtracted, moved to every position by the actions), powers with exponents 0, 1, 2 over bases that cancel to 0 or to a "
+                "constant, and truncated subtraction as an opaque "
                 "atom, one chain per member set of <= 3 members over {A, B, ~A, ~B, true, false} (thorough: also C, ~C, A-->B, A|C) for /\\ and \\/ "
                 "plus 27 wide seeds of 3-4 members over three atoms and three APPLICATION atoms x < y, f x = y, P (f y) (complementary pair on "
                 "the smallest / a middle / the largest atom, two pairs, with true / false / a compound / a duplicated member) of which EVERY "
@@ -146,7 +148,8 @@ def run(rep, tier):
                        "with opaque atoms (truncated subtraction) a difference is only a divergence",
                        "canonicity and idempotence are demanded of nat.norm_full, real.real_norm_conv, auto.auto_conv (reals), proplogic.norm_full / "
                        "sort_conj / sort_disj, logic.conj_norm / disj_norm: the property names naturals, reals, conjunctions, disjunctions; "
-                       "integer.int_norm_conv and nnf_conv only get the contract, the checker replay, eval = proof term and value preservation",
+                       "integer.int_norm_conv gets them only on power-free inputs whose polynomial is linear (the linear-arithmetic use of the normaliser); "
+                       "beyond that, and for nnf_conv, only the contract, the checker replay, eval = proof term and value preservation",
                        "checker acceptance is theory.check_proof on pt.export() (soundness of the checker itself is C01/C02)",
                        "TLC/SANY, structural codec harness/codec.py, the syntactic reader of TLC's state dump, CPython"]
     dump = wd / "rearr"
